@@ -59,6 +59,13 @@ def gen(ctx):
                for v in ("Break", "Continue")) and \
         bool(re.search(r"context:get_forked_scope\(blocknode\)\.is_deferblock = true", an)) and \
         bool(re.search(r"local function check_jump_out_of_defer\(context, node, what, targetkind\)\s+for scope in context\.scope:iterate_up_scopes\(\) do\s+if scope\[targetkind\] or scope\.is_function then break end\s+if scope\.is_deferblock then", an))
+    mi = re.search(r"function visitors\.Id\(context, node\)(.*?)\nend\n", an, re.S)
+    if not mi:
+        raise RuntimeError("visitors.Id not found")
+    idv = mi.group(1)
+    # the accessibility check is a statement of the function body itself (indent 2), after both the
+    # lookup branch and the forcesymbol branch
+    forced_checked = bool(re.search(r"\n  else\n    symbol = attr\.forcesymbol\n  end\n(?:  [^\n]*\n)*?  if not symbol\.staticstorage and symbol\.scope ~= context\.rootscope and context\.generator ~= 'lua' and\n\s+not symbol:is_directly_accesible_from_scope\(context\.scope\) then\n    node:raisef\(\"attempt to access upvalue", idv))
     td = vlib.repo_read("lualib/nelua/typedefs.lua")
     types = []
     for mm in re.finditer(r"primtypes\.(u?int\d+)\s*=\s*types\.IntegralType\('(\w+)',\s*(\d+)(?:,\s*(true|false))?", td):
@@ -75,9 +82,10 @@ def gen(ctx):
            "From Coq Require Import List ZArith Bool.\nImport ListNotations.\nOpen Scope Z_scope.\n"
            "Definition gen_switchcase_index_is_loop_var : bool := %s.\n" % ("true" if fixed else "false") +
            "Definition gen_break_continue_check_defer_block : bool := %s.\n" % ("true" if jump else "false") +
+           "Definition gen_upvalue_check_covers_forced_symbols : bool := %s.\n" % ("true" if forced_checked else "false") +
            "Definition gen_int_types : list (Z * bool) := [%s].\n" % "; ".join("(%d, %s)" % (b, "true" if s else "false") for _, b, s in types))
     vlib.write_if_changed(os.path.join(vlib.coq_dir(ID), "Gen.v"), txt)
-    return {"break_continue_check_defer_block": jump, "switchcase_index_expr": idx_expr, "case_loop_var": m1.group(1), "int_types": types}
+    return {"upvalue_check_covers_forced_symbols": forced_checked, "break_continue_check_defer_block": jump, "switchcase_index_expr": idx_expr, "case_loop_var": m1.group(1), "int_types": types}
 
 
 WITNESSES = []      # programs on which the unchanged analyzer violates the property (none at present)
@@ -89,6 +97,12 @@ RULE_TABLE = [
     ("ptr-arith-add", ["local p: *integer = nilptr"], "local q = p + 1"),
     ("ptr-arith-mul", ["local p: *integer = nilptr"], "local q = p * 2"),
     ("ptr-arith-ptr", ["local p: *integer = nilptr", "local r: *integer = nilptr"], "local q = p - r"),
+    ("ptr-arith-div", ["local p: *integer = nilptr"], "local q = 2 / p"),
+    ("ptr-arith-div-rhs", ["local p: *integer = nilptr"], "local q = p / 2"),
+    ("ptr-arith-pow", ["local p: *integer = nilptr"], "local q = 2 ^ p"),
+    ("ptr-arith-idiv", ["local p: *integer = nilptr"], "local q = p // 2"),
+    ("ptr-arith-mod", ["local p: *integer = nilptr"], "local q = 2 % p"),
+    ("switch-duplicate-case", ["local sv = 1"], "switch sv do case 1 then sv = 2 case 1 then sv = 3 end"),
     ("arith-string-boolean", [], "local q = 'a' + true"),
     ("arith-record", ["local R = @record{x: integer}", "local a: R, b: R"], "local q = a + b"),
     ("arg-type-string-for-integer", ["local function tf(a: integer) return a end"], "tf('x')"),
@@ -155,7 +169,7 @@ def correspond(ctx):
             if line and not line.startswith("#"):
                 j = json.loads(line)
                 for emb in j.get("embeddings", c05gen.EMBEDDINGS):
-                    cases.append(("corpus", None, from_json(j["body"]), emb))
+                    cases.append(("corpus+interp" if j.get("interp") else "corpus", None, from_json(j["body"]), emb))
     focuses = ["mixed", "flow", "names", "labels", "consts", "mixed"]
     i = 0
     while len(cases) < nprog:
@@ -173,12 +187,19 @@ def correspond(ctx):
         body = remap_types(body, usable)
         i += 1
         emb = c05gen.EMBEDDINGS[i % len(c05gen.EMBEDDINGS)]
+        # every reference of the names family is printed plainly in some programs and through a preprocessor
+        # interpolation (forced symbol) in others
+        if rng.random() < 0.5 and (focus in ("names", "mixed") or focus == "targeted-names"):
+            body = c05gen.force_refs(body, rng, 1.0 if rng.random() < 0.5 else 0.5)
+            focus += "+interp"
         cases.append((focus, None, body, emb))
 
     srcs = []
     model_lines = []
+    macro_lines = []
     for n, (stream, key, body, emb) in enumerate(cases):
-        text, mtxt = c05gen.print_program(body, emb, TYPE_NAMES)
+        text, mtxt, ml_ = c05gen.print_program(body, emb, TYPE_NAMES, c05gen.INTERP_STYLES[n % 3])
+        macro_lines.append(ml_)
         p = os.path.join(work, "c%05d.nelua" % n)
         with open(p, "w") as f:
             f.write(text)
@@ -231,7 +252,7 @@ def correspond(ctx):
     posmiss = []
     crashes = []
     per_emb = {}
-    for (stream, key, body, emb), src, mline, res in zip(cases, srcs, ml, results):
+    for (stream, key, body, emb), src, mline, res, mlines in zip(cases, srcs, ml, results, macro_lines):
         parts = mline.split("\t")
         if len(parts) != 2:
             raise RuntimeError("model driver output: %r" % mline[:200])
@@ -259,7 +280,13 @@ def correspond(ctx):
         elif impl_ok != model_ok:
             mism.append((len(repr(body)), src, emb, res, offs, stream))
         elif not impl_ok:
-            if not any(ln == res[1] and kd == res[3] for ln, kd in offs):
+            # a forced reference to an unknown name is `nil` for the preprocessor: the diagnostic is about the nil
+            # value; a reference made through the macros zuse/zasg is reported on the macro's body line
+            def same(ln, kd):
+                line_ok = ln == res[1] or (ln in mlines and mlines[ln] == res[1])
+                kind_ok = kd == res[3] or (kd == "undeclared" and res[3] in ("nilarg", "constassign") and "+interp" in stream)
+                return line_ok and kind_ok
+            if not any(same(ln, kd) for ln, kd in offs):
                 posmiss.append((len(repr(body)), src, emb, res, offs))
 
     oracle_fail.sort(key=lambda x: x[0])
